@@ -316,6 +316,9 @@ func (t *tr) declStmt(s *ast.DeclStmt) {
 					o.f[f] = &val{t: ty.sd.ftyp[i], isNil: true}
 				}
 				t.storeVar(n.Name, &val{t: ty, o: o}, true)
+			case kSlice, kList:
+				// var b []byte / var l []T: the nil slice, i.e. the empty list
+				t.storeVar(n.Name, &val{t: ty, e: "[]"}, true)
 			default:
 				t.fail("unsupported var declaration of type %s", ty)
 			}
